@@ -4,10 +4,12 @@ Engine: SimNet.  The real web stack (`circuits.web.Server` = TCPServer + HTTP + 
 simulated sockets under a real poller; the clients are harness `Peer`s that speak HTTP by hand and read at a drawn pace.
 
 Workload (all from the tape): a Controller with 1-5 exposed methods, each with a drawn *shape* - returns str / bytes / list of str+bytes /
-is a generator function / returns a generator (both with '' chunks) / returns a binary or text file object / sets `response.body = generator;
-response.stream = True` / keeps the response open and pushes `stream` events later / sets a status of any class / 1xx-204-304 with nothing /
+is a generator function / returns a generator (both with '' chunks) / returns a binary or text file object / returns or assigns a file-LIKE object whose read(n)
+delivers drawn short reads (a stream: 1..n bytes per call, b'' at the end; with `response.stream` left on or switched off) / sets
+`response.body = generator` with `response.stream` on or off / keeps the response open and pushes `stream` events later / sets a status of any class / 1xx-204-304 with nothing /
 returns or raises every kind of error and redirect - with sizes from 0 to beyond the socket send buffer; requests GET/HEAD x HTTP/1.0/1.1 x
-Connection keep-alive/close/absent, in sequences on 1-3 connections at once (a connection's next request is sent only after its previous
+Connection keep-alive/close/absent, request targets in canonical and non-canonical form (`/x/../m0`, `/./m0`, `//m0`, `/%6d0`, `/m0//` ...: the
+server itself answers those, today with a 301 to the canonical URL), in sequences on 1-3 connections at once (a connection's next request is sent only after its previous
 response was received completely and the server went quiet: no pipelining); peers that read everything at once, slowly, or stall first;
 `short_write` / `transient_send_error` faults through TapePolicy in half of the runs (fault-free and faulty runs are counted apart).
 
@@ -27,7 +29,6 @@ announces; http.client.HTTPResponse as a second opinion on every response):
 import email.utils
 import errno
 import io
-import socket
 import zlib
 
 from simcore import world, simnet
@@ -72,12 +73,17 @@ ASSUMPTIONS = ['requests are delivered whole and are well-formed (segmentation a
                'stream events of the push idiom start after `response_success`, carry non-empty data and are only used for GET',
                'error pages: only status, framing and the presence of the application\'s description are judged, not the page text',
                'redirect() without a code may answer 302 or 303; a close wish of the client that the server does not honour is not a violation as long as the response says keep-alive',
-               'response encoding is utf-8 or latin-1 (server-wide)']
+               'response encoding is utf-8 or latin-1 (server-wide)',
+               'a request whose target is not in canonical form may be answered by the server as it sees fit (today: 301 to the canonical URL): unless the '
+               'response is the handler\'s own (X-Marker of this request) only well-formedness, framing, own-response (no marker of another request in '
+               'X-Marker / Location / body), left-over bytes and closed-iff-announced are judged for it',
+               'file-like bodies: read(n) returns 1..n bytes until the data is exhausted, then an empty result (the io.RawIOBase contract); close() is not judged']
 PROBES = ['resp-checked', 'resp-checked:fault-free', 'resp-checked:faulty', 'keepalive-reuse', 'framing:length', 'framing:chunked', 'framing:close', 'framing:none',
           'method:HEAD', 'http10', 'closed-by-server', 'kept-open', 'real-partial-send', 'peer:stall', 'peer:slow', 'fault:short_write',
           'fault:transient_send_error', 'overlap', 'body>sndbuf', 'empty-chunk', 'nonascii', 'second-opinion', 'run:fault-free', 'run:faulty',
           'cfg:Select', 'cfg:Poll', 'cfg:EPoll', 'kind:str', 'kind:bytes', 'kind:list', 'kind:genfunc', 'kind:genret', 'kind:file', 'kind:textfile',
-          'kind:stream', 'kind:nobody', 'kind:error', 'status-class:1', 'status-class:2', 'status-class:3', 'status-class:4', 'status-class:5']
+          'kind:stream', 'kind:nobody', 'kind:error', 'kind:sfile', 'kind:bodygen', 'non-canonical-path', 'further-request-after-redirect',
+          'short-read-fileobj', 'short-read-fileobj:return', 'short-read-fileobj:body', 'short-read-fileobj:body-nostream', 'status-class:1', 'status-class:2', 'status-class:3', 'status-class:4', 'status-class:5']
 TIERS = {
     'quick': dict(runs=12000, wall=26, chunk=25, cfg=dict(max_requests=5, sizes=0, round_cap=6000)),
     'thorough': dict(runs=150000, wall=580, chunk=100, cfg=dict(max_requests=10, sizes=1, round_cap=30000)),
@@ -90,9 +96,13 @@ K_DUP_ERROR = 'C15/leftover/error-raised'
 K_STREAM_E0 = 'C15/body/stream+empty-first/chunked'
 K_STREAM_E0L = 'C15/leftover/stream+empty-first'
 K_PUSH = 'C15/body/push/length'
+K_UNSTREAMED_E = 'C15/unanswered/unstreamed-iterator+empty/incomplete-response'
+K_UNSTREAMED_E2 = 'C15/malformed/truncated/unstreamed-iterator+empty'
 
-KINDS = ['str', 'bytes', 'list', 'genfunc', 'genret', 'file', 'textfile', 'stream', 'nobody', 'error', 'push']
-KIND_W = [6, 3, 4, 3, 3, 3, 2, 4, 2, 4, 1]
+KINDS = ['str', 'bytes', 'list', 'genfunc', 'genret', 'file', 'textfile', 'stream', 'nobody', 'error', 'push', 'sfile', 'bodygen']
+KIND_W = [6, 3, 4, 3, 3, 3, 2, 4, 2, 4, 1, 5, 2]
+READ_SIZES = [1, 7, 100, 1000, 4095, 4096, 10000]     # how much one read() of a file-like body delivers at most (BUFSIZE = 4096 is what is asked for)
+NONCANON = ['/x/../m%d', '/./m%d', '//m%d', '/%%6d%d', '/x/y/../../m%d', '/../m%d', '/m%d//']
 SIZES = [[40, 0, 1, 5, 300, 4095, 4096, 4097, 9000, 20000, 70000], [40, 0, 1, 5, 300, 4095, 4096, 4097, 9000, 20000, 70000, 300000]]
 SIZE_W = [[4, 3, 2, 3, 4, 1, 2, 1, 3, 2, 1], [4, 3, 2, 3, 4, 1, 2, 1, 3, 2, 2, 1]]
 STATUSES = [201, 202, 203, 206, 299, 300, 302, 400, 402, 404, 410, 413, 500, 503]
@@ -111,6 +121,33 @@ def _install():
     WS.stderr = world._Sink('web.servers')
 
 
+class ShortReader:
+    """A file-like *stream*: read(n) returns at most n and at most the next drawn amount of what is left (never nothing before the end), then
+    an empty result for ever - what a pipe, a socket file or any adapter over a producer does."""
+
+    def __init__(self, data, reads, on_short):
+        self.data, self.reads, self.on_short = data, reads, on_short
+        self.pos = self.calls = 0
+        self.closed = False
+
+    def read(self, n=-1):
+        left = len(self.data) - self.pos
+        if left <= 0:
+            return self.data[:0]
+        k = self.reads[self.calls % len(self.reads)]
+        self.calls += 1
+        want = left if (n is None or n < 0) else min(n, left)
+        k = max(1, min(k, want))
+        if k < want:
+            self.on_short()
+        out = self.data[self.pos:self.pos + k]
+        self.pos += k
+        return out
+
+    def close(self):
+        self.closed = True
+
+
 def text_for(marker, n, nonascii):
     """What the application says: n characters, beginning with the request's marker, with a period (997) that no chunk size divides."""
     if n <= 0:
@@ -124,7 +161,7 @@ def gen_spec(ch, avoid, sizes):
     if K_PUSH in avoid:
         w[kinds.index('push')] = 0
     kind = kinds[ch.weighted(w, 'shape')]
-    spec = dict(kind=kind, size=0, nonascii=False, status=None, pieces=None, sub=None, code=None, cls=None, gap=0, empty_first=False)
+    spec = dict(kind=kind, size=0, nonascii=False, status=None, pieces=None, sub=None, code=None, cls=None, gap=0, empty_first=False, reads=None, how=None, textmode=False)
     if kind == 'nobody':
         spec['status'] = ch.choice(NOBODY, 'nobody-status')
         spec['sub'] = ch.choice(['str', 'bytes', 'list'], 'nobody-value')
@@ -143,7 +180,14 @@ def gen_spec(ch, avoid, sizes):
     spec['nonascii'] = ch.chance(1, 3, 'non-ascii')
     if kind != 'genfunc' and ch.chance(1, 4, 'set-status'):    # a generator function cannot reach self.response any more when it runs
         spec['status'] = ch.choice(STATUSES, 'status')
-    if kind in ('list', 'genfunc', 'genret', 'stream', 'push'):
+    if kind == 'sfile':
+        spec['how'] = ch.choice(['return', 'body', 'body-nostream'], 'fileobj-use')
+        spec['textmode'] = ch.chance(1, 4, 'text-mode')
+        # amounts one read() delivers at most; scaled so that the largest bodies still take a bounded number of reads (one loop iteration each)
+        spec['reads'] = [max(ch.choice(READ_SIZES, 'read-amount'), spec['size'] // 150) for _ in range(ch.randint(1, 5, 'read-pattern'))]
+    if spec['size'] == 0 and (kind == 'bodygen' or spec['how'] == 'body-nostream') and (K_UNSTREAMED_E in avoid or K_UNSTREAMED_E2 in avoid):
+        spec['size'] = 1
+    if kind in ('list', 'genfunc', 'genret', 'stream', 'push', 'bodygen'):
         n = ch.randint(1, 5, 'pieces')
         pieces = []
         for i in range(n):
@@ -168,6 +212,10 @@ def shape_of(spec):
         s = 'error-' + spec['sub']
     if s == 'stream' and spec['empty_first']:
         s += '+empty-first'
+    if s == 'sfile':
+        s += '-' + spec['how']
+    if spec['size'] == 0 and (s == 'bodygen' or spec['how'] == 'body-nostream'):
+        s = 'unstreamed-iterator+empty'       # an iterator body (generator or file-like), response.stream off, that turns out to be empty
     return s
 
 
@@ -266,6 +314,7 @@ def _run(ctx):
     T0 = W.now
     st = dict(viol=False, checked=0, serial=0, rounds=0)
     markers = {}          # marker -> request record
+    short_reads = []      # markers of requests whose file-like body delivered at least one short read
     pushes = []           # jobs of the push idiom
 
     def oplog(kind, sock, data):
@@ -276,10 +325,6 @@ def _run(ctx):
     def fail(key, detail, r=None):
         if not st['viol']:
             st['viol'] = True
-            if r is not None and any(q['method'] == 'HEAD' for q in r['conn']['hist'][:r['nth']]):
-                # one root cause, one key: whatever clause breaks for a request that follows a HEAD on the same connection is reported as
-                # "a further request on a kept-alive connection is not answered correctly", localised by the history shape
-                key, detail = K_HEAD_STALE, '[%s] %s' % (key, detail)
             ctx.trace('VIOLATION %s: %s' % (key, detail))
             ctx.violation(key, detail)
 
@@ -342,6 +387,17 @@ def _run(ctx):
                 if kind == 'textfile':
                     return io.StringIO(t)
                 res = self.response
+                if kind == 'sfile':
+                    f = ShortReader(t if spec['textmode'] else t.encode(enc), spec['reads'], lambda: short_reads.append(k))
+                    if spec['how'] == 'return':
+                        return f
+                    res.body = f                    # Body.__set__ wraps it into file_generator and switches streaming on
+                    if spec['how'] == 'body-nostream':
+                        res.stream = False          # the application prefers the whole body in one piece
+                    return res
+                if kind == 'bodygen':               # an iterator body without streaming
+                    res.body = (c for c in chunks_for(spec, t, enc))
+                    return res
                 res.stream = True
                 if kind == 'stream':
                     res.body = (c for c in chunks_for(spec, t, enc))
@@ -356,11 +412,6 @@ def _run(ctx):
 
     class PushApp(Component):
         channel = 'web'
-
-        def connect(self, sock, *peer):
-            # swarm knob: a small send buffer on the accepted socket (the interposer only sets it on sockets it creates itself)
-            if NET.sndbuf:
-                sock.setsockopt(socket.SOL_SOCKET, socket.SO_SNDBUF, NET.sndbuf)
 
         def response_success(self, e, value):
             job = getattr(e.args[0], 'sim_push', None)
@@ -432,7 +483,11 @@ def _run(ctx):
                 r['limit'] = 2048
             ctx.stat('peer:stall')
         host = ver == 1 or ch.chance(1, 2, 'host-header')
-        lines = ['%s /m%d?k=%s HTTP/1.%d' % (method, idx, marker, ver)]
+        r['path'] = '/m%d' % idx
+        r['noncanon'] = ch.chance(1, 5, 'non-canonical-target')
+        if r['noncanon']:
+            r['path'] = ch.choice(NONCANON, 'non-canonical-form') % idx
+        lines = ['%s %s?k=%s HTTP/1.%d' % (method, r['path'], marker, ver)]
         if host:
             lines.append('Host: sim.test')
         if wish:
@@ -448,11 +503,16 @@ def _run(ctx):
                 return mk
         return None
 
-    def own_key(r):
+    def own_key(r, other=None):
+        # the answer belongs to another request: localised by what that request was (a HEAD earlier on this connection is the history shape of
+        # the fixed finding K_HEAD_STALE, kept as its own key so that a regression is recognised)
+        q = markers.get(other)
+        if q is not None and q['method'] == 'HEAD' and q['conn'] is r['conn']:
+            return K_HEAD_STALE
         return 'C15/own-response/after-' + ('GET' if r['nth'] else 'nothing')
 
     def describe(r):
-        return '%s /m%d?k=%s HTTP/1.%d%s -> %s' % (r['method'], r['idx'], r['marker'], r['ver'], ' Connection: ' + r['wish'] if r['wish'] else '', shape_of(r['spec']))
+        return '%s %s?k=%s HTTP/1.%d%s -> %s' % (r['method'], r['path'], r['marker'], r['ver'], ' Connection: ' + r['wish'] if r['wish'] else '', shape_of(r['spec']))
 
     def check_response(r, resp, data):
         """Clauses that can be judged as soon as the response is complete."""
@@ -467,7 +527,18 @@ def _run(ctx):
         # "each further request is answered correctly": with ITS OWN response
         xm = resp.header('X-Marker')
         if xm is not None and xm != r['marker']:
-            return failr(r, own_key(r), '%s carries X-Marker %r, i.e. the response to %s' % (what, xm, describe(markers[xm]) if xm in markers else 'nothing that was asked'))
+            return failr(r, own_key(r, xm), '%s carries X-Marker %r, i.e. the response to %s' % (what, xm, describe(markers[xm]) if xm in markers else 'nothing that was asked'))
+        loc = resp.header('Location')
+        fm = foreign_marker(r, loc) if loc else None
+        if fm:
+            return failr(r, own_key(r, fm), '%s redirects to %r, which is the answer to %s' % (what, loc, describe(markers[fm])))
+        if r['noncanon'] and xm is None:
+            # the server answered a target that is not in canonical form by itself (the statement does not say how): the application produced nothing
+            # to compare with; what remains is that the answer is not the one to another request, and the framing / close clauses below
+            fm = foreign_marker(r, resp.body.decode('latin1')[:4000])
+            if fm:
+                return failr(r, own_key(r, fm), '%s has the body of the response to %s' % (what, describe(markers[fm])))
+            statuses, body, contains, header = {resp.status}, None, None, False
         # "recovers exactly the status ..."
         if resp.status not in statuses:
             return failr(r, 'C15/status/%s' % shape, '%s: expected status %s' % (what, sorted(statuses)))
@@ -478,12 +549,12 @@ def _run(ctx):
             loc = resp.header('Location')
             if loc is None or r['marker'] not in loc:
                 fm = foreign_marker(r, loc or '')
-                return failr(r, own_key(r) if fm else 'C15/headers/location/%s' % shape, '%s: Location is %r, the application redirected to /landing/%s' % (what, loc, r['marker']))
+                return failr(r, own_key(r, fm) if fm else 'C15/headers/location/%s' % shape, '%s: Location is %r, the application redirected to /landing/%s' % (what, loc, r['marker']))
         # "... and body bytes the application produced"; "HEAD, 1xx, 204 and 304 responses carry no body"
         if body is not None and resp.body != body:
             fm = foreign_marker(r, resp.body.decode('latin1')[:4000])
             if fm:
-                return failr(r, own_key(r), '%s has the body of the response to %s' % (what, describe(markers[fm])))
+                return failr(r, own_key(r, fm), '%s has the body of the response to %s' % (what, describe(markers[fm])))
             n = min(len(body), len(resp.body))
             d = next((i for i in range(n) if body[i] != resp.body[i]), n)
             return failr(r, 'C15/body/%s/%s' % (shape, resp.framing), '%s: application produced %d bytes, client recovers %d; first difference at offset %d: expected %r got %r' % (
@@ -491,7 +562,7 @@ def _run(ctx):
         if contains is not None and contains not in resp.body:
             fm = foreign_marker(r, resp.body.decode('latin1')[:4000])
             if fm:
-                return failr(r, own_key(r), '%s has the body of the response to %s' % (what, describe(markers[fm])))
+                return failr(r, own_key(r, fm), '%s has the body of the response to %s' % (what, describe(markers[fm])))
             return failr(r, 'C15/body/%s/%s' % (shape, resp.framing), '%s: the error page does not contain the application\'s description %r' % (what, contains))
         # "delimited by Content-Length, chunked encoding or connection close as the request's protocol version ... require"
         if resp.framing == 'chunked' and r['ver'] == 0:
@@ -514,6 +585,16 @@ def _run(ctx):
         ctx.stat('status-class:%d' % (resp.status // 100))
         if r['nth'] > 0:
             ctx.stat('keepalive-reuse')
+            prev = c['hist'][r['nth'] - 1]
+            if prev['resp'] is not None and 300 <= prev['resp'].status < 400:
+                ctx.stat('further-request-after-redirect')
+            if prev['noncanon']:
+                ctx.stat('further-request-after-non-canonical')
+        if r['noncanon']:
+            ctx.stat('non-canonical-path')
+        if r['marker'] in short_reads:
+            ctx.stat('short-read-fileobj')
+            ctx.stat('short-read-fileobj:' + spec['how'])
         if body and NET.sndbuf and len(body) > NET.sndbuf:
             ctx.stat('body>sndbuf')
         if spec['pieces'] and any(p[0] == 'empty' for p in spec['pieces']):
@@ -583,8 +664,12 @@ def _run(ctx):
                 pass
             if diag is not None:
                 xm = diag.header('X-Marker')
+                fm = foreign_marker(r, diag.header('Location') or '')
+                if fm and xm is None:
+                    return failr(r, own_key(r, fm), 'request %s is answered with the header section of a redirect to %r, the answer to %s, and no complete body' % (
+                        describe(r), diag.header('Location'), describe(markers[fm])))
                 if xm is not None and xm != r['marker']:
-                    return failr(r, own_key(r), 'request %s is answered with the header section of the response to %s (X-Marker %r, status %d, %s) and no complete body' % (
+                    return failr(r, own_key(r, xm), 'request %s is answered with the header section of the response to %s (X-Marker %r, status %d, %s) and no complete body' % (
                         describe(r), describe(markers[xm]) if xm in markers else '?', xm, diag.status, 'Content-Length %s' % diag.header('Content-Length')))
             return failr(r, 'C15/unanswered/%s/%s' % (shape, 'nothing-received' if not got else 'incomplete-response'),
                         'request %s: the server is quiescent, connection %s, but no complete response arrived; received %d bytes: %r' % (
